@@ -41,6 +41,8 @@ import XotModel.Lemmas.FspecFrameReplace
 import XotModel.Lemmas.FparseHistStep
 import XotModel.Lemmas.ParseWitness
 import XotModel.Lemmas.FframeGeneralAll
+import XotModel.Lemmas.FframeRestAll
+import XotModel.Lemmas.FframeRestMoved
 
 namespace XotModel.Props
 open XotModel XotModel.Spec
@@ -1681,6 +1683,209 @@ theorem C05_reachable_frame_general_full (env : Env) (cs : List PCall) (hw : ∀
   intro s hla hok h hl h1 h2 h3
   have inv : s.forest.Inv := PStore.fph_run_inv cs (PStore.fph_init_inv env) hw
   obtain ⟨a, b, c', _⟩ := C05_frame_general inv hwc hf hla hok hl h1 h2 h3
+  exact ⟨a, b, c'⟩
+
+end XotModel.Props
+
+
+/-! # ================================================================================================
+    # THE GENERAL FRAME, LARGER DOMAIN (branch wt-framerest)
+    # ================================================================================================
+
+  `C05_frame_general2`: the statement of `C05_frame_general` for the domain `XCall.framed2` = `framed` and
+  map clear, append of an entry node (`append_attribute_node` / `append_namespace_node`), `any_append`,
+  `remove_insignificant_whitespace` (Model/FframeSpec2.lean), with `writtenParents2 = writtenParents ++ extraWritten`.
+
+  `writtenParents` alone is NOT enough for the append of an entry node whose key is present in the target element: the
+  existing entry node of the target takes the value and is neither the target nor a text child
+  (`C05_writtenParents_misses_existing_entry`, a closed counterexample); `extraWritten` adds the entry nodes of that
+  kind of the target.  Likewise `remove_insignificant_whitespace(n)` removes `n` itself when it is a whitespace text
+  node the rule selects, and the parent of `n` is outside the subtree of `n`
+  (`C05_writtenParents_misses_parent_of_stripped_text`); `extraWritten` adds the parent.
+
+  NOT in `framed2`: create_missing_prefixes, deduplicate_namespaces.
+
+  Inside the moved subtree: `C05_moved_subtree_intact` (generic: the node carries the same subtree in both forests)
+  and its instances `C05_frame_general_moved_detach`, `C05_frame_general_moved_wrap`.  The other moves are not
+  instantiated. -/
+
+namespace XotModel.Props
+open XotModel Spec
+
+/-- ⟦C05_frame_general2⟧ **No other node is created, lost, reordered or altered** — the calls of `XCall.framed2`
+    (the 21 kinds of `framed`, map clear, append of an entry node, any_append, remove_insignificant_whitespace).  Every forest with the invariant,
+    every call with live arguments that answers `ok`, every live node `h` outside `writtenParents2`, outside the
+    removed subtree and outside the moved subtree: `h` is live afterwards, has the same value and the same children
+    (the same handles in the same order); and if its parent `p` is such a node too, `p` is still its parent. -/
+theorem C05_frame_general2 {s : Store} {c : Forest.XCall} (inv : s.forest.Inv) (hw : c.wellKinded)
+    (hf : c.framed2 = true) (hla : c.liveArgs s.forest) (hok : (c.run s).2 = .ok)
+    {h : Nat} (hl : s.forest.isLive h = true)
+    (hnw : h ∉ c.writtenParents2 s.forest) (hnr : h ∉ c.removedHandles s.forest)
+    (hnm : h ∉ c.movedSubtree s.forest) :
+    (c.run s).1.forest.isLive h = true ∧
+    (c.run s).1.forest.value? h = s.forest.value? h ∧
+    (c.run s).1.forest.kidHandles h = s.forest.kidHandles h ∧
+    (∀ p, s.forest.parent? h = some p → p ∉ c.writtenParents2 s.forest → p ∉ c.removedHandles s.forest →
+      p ∉ c.movedSubtree s.forest → (c.run s).1.forest.parent? h = some p) := by
+  have fr := frame_general2 inv hw hf hla hok hl hnw hnr hnm
+  refine ⟨fr.live, fr.value, fr.kids, fun p hp h1 h2 h3 => ?_⟩
+  have inv' : (c.run s).1.forest.Inv := Store.xstep_inv inv c hw
+  have hk := kid_of_parent? inv.nodup hp
+  have hpl : s.forest.isLive p = true := by
+    unfold Forest.kidHandles at hk
+    unfold Forest.isLive
+    cases hg : s.forest.get? p with
+    | none => rw [hg] at hk; cases hk
+    | some t => rfl
+  exact parent_of_frameAt inv.nodup inv'.nodup hp (frame_general2 inv hw hf hla hok hpl h1 h2 h3)
+
+/-- `framed2` extends `framed`. -/
+theorem C05_framed2_of_framed {c : Forest.XCall} (h : c.framed = true) : c.framed2 = true := framed2_of_framed h
+
+/-- The three constructors by themselves, in the `get?`-free form: **map clear** — every live node other than the
+    element and its entry nodes of that kind keeps value and children. -/
+theorem C05_frame_mapClear {f : Forest} (inv : f.Inv) {k : Forest.MapKind} {e : Nat}
+    (hok : (f.mapClear k e).2 = .ok) {h : Nat} (hl : f.isLive h = true) (hne : h ≠ e)
+    (hz : h ∉ f.entryHandles k e) :
+    (f.mapClear k e).1.isLive h = true ∧ (f.mapClear k e).1.value? h = f.value? h ∧
+    (f.mapClear k e).1.kidHandles h = f.kidHandles h := by
+  have fr := (getFrame_mapClear inv (isElement_of_mapClear_ok hok) hne hz).frameAt hl
+  exact ⟨fr.live, fr.value, fr.kids⟩
+
+/-- `<e a="1">x</e>` (0; 1; 2), the parentless attribute node `a="2"` (3), `<g b="3"/>` (4; 5). -/
+def frameWitness2 : Forest :=
+  { roots := [.node 0 (.element 2) [.node 1 (.attribute 5 ['1']) [], .node 2 (.text ['x']) []],
+              .node 3 (.attribute 5 ['2']) [],
+              .node 4 (.element 3) [.node 5 (.attribute 6 ['3']) []]],
+    next := 6 }
+
+/-- ⟦C05_writtenParents_misses_existing_entry⟧ `append_attribute_node(e, a="2")` on `frameWitness2`: the key `a` is
+    present in `e`, the existing attribute node 1 takes the value `2`; 1 is live, not in `writtenParents`, not in a
+    removed or moved subtree — and its value changes.  With `writtenParents2` it is listed. -/
+theorem C05_writtenParents_misses_existing_entry :
+    let s : Store := ⟨frameWitness2, Env.fresh⟩
+    let c : Forest.XCall := .call (.appendEntryNode .attributes 0 3)
+    s.forest.inv = true ∧ (c.run s).2 = .ok ∧ s.forest.isLive 1 = true ∧
+    c.writtenParents s.forest = [0, 2] ∧ c.removedHandles s.forest = [] ∧ c.movedSubtree s.forest = [3] ∧
+    s.forest.value? 1 = some (.attribute 5 ['1']) ∧ (c.run s).1.forest.value? 1 = some (.attribute 5 ['2']) ∧
+    c.writtenParents2 s.forest = [0, 2, 1] ∧ c.framed2 = true := by
+  decide +kernel
+
+/-- Non-vacuity of `C05_frame_general2` on `frameWitness2`: the attribute node 5 of `g` is appended to `e` (key `b`
+    absent): written are `g`, `e`, the text child of `e` and the attribute node of `e`; the node 5 moves; the
+    parentless attribute 3 is framed, `g` loses its child, `e` gets it after its attribute.  `any_append` of the same
+    node is the same call.  `clear()` of the attributes of `e`: written are `e` and 1; the text 2 stays. -/
+example :
+    let s : Store := ⟨frameWitness2, Env.fresh⟩
+    let c : Forest.XCall := .call (.appendEntryNode .attributes 0 5)
+    let d : Forest.XCall := .call (.anyAppend 0 5)
+    let m : Forest.XCall := .call (.mapClear .attributes 0)
+    c.framed2 = true ∧ (c.run s).2 = .ok ∧ c.writtenParents2 s.forest = [4, 0, 2, 1] ∧
+    c.movedSubtree s.forest = [5] ∧ (c.run s).1.forest.value? 3 = s.forest.value? 3 ∧
+    (c.run s).1.forest.kidHandles 0 = [1, 5, 2] ∧ (c.run s).1.forest.kidHandles 4 = [] ∧
+    d.framed2 = true ∧ (d.run s).2 = .ok ∧ d.writtenParents2 s.forest = [4, 0, 2, 1] ∧
+    (d.run s).1.forest.kidHandles 0 = [1, 5, 2] ∧
+    m.framed2 = true ∧ (m.run s).2 = .ok ∧ m.writtenParents2 s.forest = [0, 1] ∧
+    (m.run s).1.forest.kidHandles 0 = [2] ∧ (m.run s).1.forest.kidHandles 4 = [5] ∧
+    (m.run s).1.forest.value? 2 = s.forest.value? 2 := by
+  decide +kernel
+
+/-- `remove_insignificant_whitespace(n)` by itself: every live node outside the subtree of `n` that is not the
+    parent of `n` keeps value and children. -/
+theorem C05_frame_removeInsignificantWhitespace {f : Forest} (inv : f.Inv) {n : Nat} (hn : f.isLive n = true)
+    {h : Nat} (hl : f.isLive h = true) (hz : h ∉ f.subtreeHandles n) (hp : some h ≠ f.parent? n) :
+    (f.removeInsignificantWhitespace n).isLive h = true ∧
+    (f.removeInsignificantWhitespace n).value? h = f.value? h ∧
+    (f.removeInsignificantWhitespace n).kidHandles h = f.kidHandles h := by
+  obtain ⟨t, hg⟩ := Forest.get_of_live hn
+  have fr := (getFrame_riw inv hg (not_mem_handles_of_subtree hg hz) hp).frameAt hl
+  exact ⟨fr.live, fr.value, fr.kids⟩
+
+/-- `<e>·<u/></e>` (0; the whitespace text 1; 2) and a second tree `<g>·</g>` (3; 4). -/
+def frameWitness3 : Forest :=
+  { roots := [.node 0 (.element 2) [.node 1 (.text [' ']) [], .node 2 (.element 3) []],
+              .node 3 (.element 4) [.node 4 (.text [' ']) []]],
+    next := 5 }
+
+/-- ⟦C05_writtenParents_misses_parent_of_stripped_text⟧ `remove_insignificant_whitespace(1)` on `frameWitness3`, the
+    start node being itself a whitespace text node the rule selects: it is removed; its parent 0 is live, not in
+    `writtenParents` (the subtree of 1) — and its child list changes.  With `writtenParents2` it is listed.  The other
+    tree is framed; the call on `e` itself writes inside `e` only. -/
+theorem C05_writtenParents_misses_parent_of_stripped_text :
+    let s : Store := ⟨frameWitness3, Env.fresh⟩
+    let c : Forest.XCall := .removeInsignificantWhitespace 1
+    let d : Forest.XCall := .removeInsignificantWhitespace 0
+    s.forest.inv = true ∧ (c.run s).2 = .ok ∧ s.forest.isLive 0 = true ∧
+    c.writtenParents s.forest = [1] ∧ c.removedHandles s.forest = [] ∧ c.movedSubtree s.forest = [] ∧
+    s.forest.kidHandles 0 = [1, 2] ∧ (c.run s).1.forest.kidHandles 0 = [2] ∧
+    c.writtenParents2 s.forest = [1, 0] ∧ c.framed2 = true ∧
+    (c.run s).1.forest.kidHandles 3 = [4] ∧
+    d.framed2 = true ∧ d.writtenParents2 s.forest = [0, 1, 2] ∧ (d.run s).1.forest.kidHandles 0 = [2] ∧
+    (d.run s).1.forest.kidHandles 3 = [4] ∧ (d.run s).1.forest.value? 4 = s.forest.value? 4 := by
+  decide +kernel
+
+/-- ⟦C05_moved_subtree_intact⟧ INSIDE the moved subtree, the generic step: two forests with distinct handles in
+    which the node `c` carries the SAME subtree `t` — every node of `t` (the node `c` itself included) is live in the
+    second with the same value and the same children. -/
+theorem C05_moved_subtree_intact {f f' : Forest} (nd : f.allHandles.Nodup) (nd' : f'.allHandles.Nodup) {c : Nat}
+    {t : HTree} (hg : f.get? c = some t) (hg' : f'.get? c = some t) {h : Nat} (hm : h ∈ f.subtreeHandles c) :
+    f'.isLive h = true ∧ f'.value? h = f.value? h ∧ f'.kidHandles h = f.kidHandles h := by
+  have hz : h ∈ HTree.handles t := by
+    unfold Forest.subtreeHandles at hm
+    rw [hg] at hm
+    exact hm
+  have e := get?_inside_of_subtree nd nd' hg hg' hz
+  have hl : f.isLive h = true := by
+    obtain ⟨anc, o⟩ := Fws.occurs_of_get? hg
+    obtain ⟨q, hq⟩ := Fws.find?_some_of_mem h t hz
+    unfold Forest.isLive
+    rw [o.find_local nd h q hq]
+    rfl
+  have fr := frameAt_of_get?_eq hl e
+  exact ⟨fr.live, fr.value, fr.kids⟩
+
+/-- ⟦C05_frame_general_moved_detach⟧ `detach(n)`: every node of the moved subtree (`n` itself included) keeps its
+    value and its children. -/
+theorem C05_frame_general_moved_detach {f : Forest} (inv : f.Inv) {n : Nat} (hn : f.isLive n = true) {h : Nat}
+    (hm : h ∈ (Forest.XCall.call (.detach n)).movedSubtree f) :
+    (f.detach n).1.isLive h = true ∧ (f.detach n).1.value? h = f.value? h ∧
+    (f.detach n).1.kidHandles h = f.kidHandles h := by
+  obtain ⟨t, hg⟩ := Forest.get_of_live hn
+  exact C05_moved_subtree_intact inv.nodup (Forest.detach_inv inv n).nodup hg (detach_get_moved inv hg) hm
+
+/-- ⟦C05_frame_general_moved_wrap⟧ `element_wrap(n, name)`: every node of the moved subtree (`n` itself included)
+    keeps its value and its children. -/
+theorem C05_frame_general_moved_wrap {f : Forest} (inv : f.Inv) {n name : Nat} (hn : f.isLive n = true)
+    (hok : (f.elementWrap n name).2.1 = .ok) {h : Nat}
+    (hm : h ∈ (Forest.XCall.call (.elementWrap n name)).movedSubtree f) :
+    (f.elementWrap n name).1.isLive h = true ∧ (f.elementWrap n name).1.value? h = f.value? h ∧
+    (f.elementWrap n name).1.kidHandles h = f.kidHandles h := by
+  obtain ⟨t, hg⟩ := Forest.get_of_live hn
+  exact C05_moved_subtree_intact inv.nodup (Forest.elementWrap_inv inv n name).nodup hg (wrap_get_moved inv hok hg) hm
+
+/-- Non-vacuity on `frameWitness`: `detach(u)` (3, with the children 4 5 6 7). -/
+example :
+    let f := frameWitness
+    f.inv = true ∧ (Forest.XCall.call (.detach 3)).movedSubtree f = [3, 4, 5, 6, 7] ∧
+    (f.detach 3).1.kidHandles 3 = [4, 5, 6, 7] ∧ (f.detach 3).1.value? 6 = f.value? 6 ∧
+    (f.elementWrap 3 9).2.1 = .ok ∧ (f.elementWrap 3 9).1.kidHandles 3 = [4, 5, 6, 7] ∧
+    (f.elementWrap 3 9).1.value? 6 = f.value? 6 := by
+  decide +kernel
+
+/-- ⟦C05_reachable_frame_general2_full⟧ … on every store a history of parses and API calls reaches from
+    `Xot::new()`: no hypothesis on the invariant (`C04_reach_full`). -/
+theorem C05_reachable_frame_general2_full (env : Env) (cs : List PCall) (hw : ∀ c ∈ cs, c.wellKinded)
+    (c : Forest.XCall) (hwc : c.wellKinded) (hf : c.framed2 = true) :
+    let s := ((PStore.init env).run cs).store
+    c.liveArgs s.forest → (c.run s).2 = .ok →
+    ∀ h, s.forest.isLive h = true → h ∉ c.writtenParents2 s.forest → h ∉ c.removedHandles s.forest →
+      h ∉ c.movedSubtree s.forest →
+      (c.run s).1.forest.isLive h = true ∧
+      (c.run s).1.forest.value? h = s.forest.value? h ∧
+      (c.run s).1.forest.kidHandles h = s.forest.kidHandles h := by
+  intro s hla hok h hl h1 h2 h3
+  have inv : s.forest.Inv := PStore.fph_run_inv cs (PStore.fph_init_inv env) hw
+  obtain ⟨a, b, c', _⟩ := C05_frame_general2 inv hwc hf hla hok hl h1 h2 h3
   exact ⟨a, b, c'⟩
 
 end XotModel.Props
